@@ -34,13 +34,13 @@ CHECKS["C15"] = dict(
 CHECKS["C12"] = dict(
     text="Bounded symbolic checking: the real curl/divergence/update/cross-product/2-D curl kernels are composed on grids of solver variables; z3 shows div(curl F)=0, that curl-type updates "
          "leave div(omega) unchanged, that the stream-function velocity is discretely divergence-free with in-plane curl equal to the wide five-point Laplacian, that the forcing update equals "
-         "omega + p*(library curl) and the penalised update equals the forcing update of the difference, and that the divergence monitor equals dx^(3/2)*||div_h omega||_2.",
+         "omega + p*(library curl) and the penalised update equals the forcing update of the difference, and that the divergence monitor equals dx^(3/2)*||div_h omega||_2. The forcing / penalised updates are also run on vorticity fields that are windows of padded buffers, transposed or strided.",
     technique="symbolic composition of the real kernels (backend IR) + z3 identity queries per interior cell",
     design="DESIGN.md section 5 C12")
 CHECKS["C05"] = dict(
     text="Symbolic checking over polynomial inputs: every differential kernel is run on arrays holding a polynomial with symbolic coefficients sampled at x0+i*h (symbolic h, base point, "
          "prefactor); z3 (nlsat) shows the interior output equals the exact derivative expression with the documented sign/axis/prefactor convention, for all polynomials of degree <= 2 "
-         "(ENO3: cubics when both faces upwind alike, quadratics across a velocity sign change).",
+         "(ENO3: cubics when both faces upwind alike, quadratics across a velocity sign change). Result arrays of the flux / curl / divergence / stretching operators also as padded-interior and strided views.",
     technique="symbolic execution of the real kernels on polynomials with symbolic coefficients + z3 non-linear real arithmetic identity queries",
     design="DESIGN.md section 5 C05")
 CHECKS["C04"] = dict(
